@@ -1,5 +1,5 @@
 From Coq Require Import Extraction ExtrOcamlBasic.
-From CV Require Import C13.DepsModel C13.InvModel C13.ModuleModel C13.EnableExcl C13.NameModel Gen.GenDeps.
+From CV Require Import C13.DepsModel C13.InvModel C13.ModuleModel C13.EnableExcl C13.NameModel C13.NameRefModel Gen.GenDeps.
 Extraction Language OCaml.
 Extraction "model.ml" mkFeature mkFstate mkObj run_op delete_bias add_child remove_all_children gen_tables gen_tables_lagged
-  mkInfo mkM m_step m_run m_empty m_sched consistent_check wf_check acct_check excl_check n_run n_empty.
+  mkInfo mkM m_step m_run m_empty m_sched consistent_check wf_check acct_check excl_check n_run n_empty r_run r_empty resolve.
